@@ -140,6 +140,29 @@ Theorem C12_valid_compact_spec : forall bs, valid_compact bs = true ->
 Proof. exact valid_compact_spec. Qed.
 Print Assumptions C12_valid_compact_spec.
 
+(* ---------------- production lookup (Node.accumulate_peers) and reply size ---------------- *)
+(* the udp port the producer pings for a peer known only by its tcp port is the peer's real udp port exactly
+   for the supported layouts: one port for both protocols, or a legacy instance tcp 3333+i / udp 4444+i *)
+Theorem C12_udp_guess_supported : forall udp tcp : N,
+  guess_udp tcp = udp <-> port_layout_supported udp tcp.
+Proof. exact guess_udp_supported. Qed.
+Print Assumptions C12_udp_guess_supported.
+
+(* a peer that is not the searcher and not known bad, on a supported layout, is handed out or pinged on its real port *)
+Theorem C12_producer_reaches : forall (good : option bool) (known : option N) (udp tcp : N),
+  good <> Some false -> port_layout_supported udp tcp -> (known = None \/ known = Some udp) -> udp <> 0%N ->
+  producer_action false good known tcp = APut \/ producer_action false good known tcp = APing udp.
+Proof. exact producer_action_reaches. Qed.
+Print Assumptions C12_producer_reaches.
+
+(* the largest first findValue page (K contacts with 15-character dotted quads and 5-digit ports, K blob peers,
+   page count below 10^6) fits MSG_SIZE_LIMIT *)
+Theorem C12_first_page_fits : forall (cs : list (nat * N)) (c : nat) (pages : N),
+  length cs <= K -> Forall (fun x => fst x <= 15 /\ (snd x < 65536)%N) cs -> c <= K -> (pages < 1000000)%N ->
+  find_value_reply_size (Some cs) (Some c) pages <= MSG_SIZE_LIMIT.
+Proof. exact first_page_fits. Qed.
+Print Assumptions C12_first_page_fits.
+
 (* ---------------- non-vacuity / concrete instances ---------------- *)
 (* F9 (machine-checked): 89 peers on one node, old page count: 88 delivered *)
 Example C12_ex_old_89 : delivered_old N.eqb (seqN 89) = firstn 88 (seqN 89).
@@ -174,4 +197,9 @@ Example C12_ex_finder :
   (snd (frun ex_prm f_init ex_evs), f_sched (final_state ex_prm ex_evs), f_contacted (final_state ex_prm ex_evs))
   = ([([], 0); ([OSched 2; OSched 1], 0); ([], 0); ([OSched 3], 0); ([], 0); ([], 0); ([], 0);
       ([OYield [3; 2]; OFinish], 0)], 3%nat, [2; 1; 3])%N.
+Proof. vm_compute. reflexivity. Qed.
+Example C12_ex_reply_size :
+  (find_value_reply_size (Some (repeat (15, 44444%N) 8)) (Some 8) 2, find_value_reply_size (Some (repeat (7, 4444%N) 8)) (Some 8) 2,
+   find_value_reply_size None (Some 8) 13, guess_udp 3334, guess_udp 5000, guess_udp 3333)
+  = (1323, 1243, 688, 4445%N, 5000%N, 4444%N).
 Proof. vm_compute. reflexivity. Qed.
